@@ -7,11 +7,12 @@ import numpy as np
 from .. import cases, monitors
 
 TITLE = "Shuffle sampler emits wrapped translations with separated pivots"
-DECIDING = ["M-SHUFFLE", "M-SEPARATION", "M-INTEGRAL"]
+DECIDING = ["M-SHUFFLE", "M-SEPARATION", "M-INTEGRAL", "M-REINIT"]
 LEVEL = "exploration"
 RULE = ("seeded random reference continua (2-5 annotators, some possibly empty, labelled and unlabelled, integer / "
         "dyadic / generic times, negative times, default bounds or reset bounds) x ground-truth subsets (>= 2, holding at "
-        "least one unit) x both pivot types x 30 (quick) / 100 (thorough) draws each; for every sample the monitor "
+        "least one unit) x both pivot types x 30 (quick) / 100 (thorough) draws each; in 30 % of the cases the same "
+        "sampler object is then re-initialised on a second reference with much longer units and sampled again; for every sample the monitor "
         "infers, from the output alone, for each sampled annotator a source annotator and a pivot that explain all its "
         "units (translation, wrap-around by the continuum's length, same labels and durations), then checks pivot "
         "bounds, integrality and pairwise separation. non-trivial = sample of a reference with >= 2 units; distinct = "
@@ -182,22 +183,30 @@ def check_sample(ctx, case, ref, gt, sample, drawn):
 def check_case(ctx, case):
     import pygamma_agreement as pa
     install_spy()
+    sampler = pa.ShuffleContinuumSampler(pivot_type=case["pivot_type"])
+    np.random.seed(case["np_seed"])
+    _check_reference(ctx, case, sampler, case["continuum"], case["ground_truth"])
+    if case.get("then"):
+        # re-initialisation history: the SAME sampler object now serves another reference continuum
+        ctx.count("M-REINIT")
+        _check_reference(ctx, case, sampler, case["then"]["continuum"], case["then"]["ground_truth"])
+
+
+def _check_reference(ctx, case, sampler, cspec, ground_truth):
     rng_spy = _state_rng()
-    cspec = case["continuum"]
+    case = dict(case, ground_truth=ground_truth)
     continuum = cases.build_continuum(cspec)
     if case.get("reset_bounds"):
         continuum.reset_bounds()
-    gt = case["ground_truth"] or sorted(cspec["ann"].keys())
+    gt = ground_truth or sorted(cspec["ann"].keys())
     ref = {a: sorted((tuple(u) for u in cspec["ann"][a]), key=cases.unit_key) for a in cspec["ann"]}
     case["_bounds"] = tuple(continuum.bounds)
     case["_avg_len"] = continuum.avg_length_unit
-    sampler = pa.ShuffleContinuumSampler(pivot_type=case["pivot_type"])
     try:
-        sampler.init_sampling(continuum, None if case["ground_truth"] is None else list(case["ground_truth"]))
+        sampler.init_sampling(continuum, None if ground_truth is None else list(ground_truth))
     except Exception as e:
         ctx.fail_exc(f"init_sampling-raises:{type(e).__name__}", e, monitor="M-SHUFFLE")
         return
-    np.random.seed(case["np_seed"])
     before = monitors.snapshot_continuum(continuum)
     for i in range(case["draws"]):
         _spy["pivots"] = []
@@ -241,9 +250,25 @@ def gen_case(ctx):
                 break
     if gt is None and not any(cspec["ann"][a] for a in names):
         return None
-    return {"continuum": cspec, "ground_truth": gt, "pivot_type": rng.choice(["int_pivot", "float_pivot"]),
+    case = {"continuum": cspec, "ground_truth": gt, "pivot_type": rng.choice(["int_pivot", "float_pivot"]),
             "reset_bounds": rng.random() < 0.5, "np_seed": rng.randrange(2 ** 31),
             "draws": 30 if ctx.tier == "quick" else 100}
+    if rng.random() < 0.3:
+        # a second reference for the same sampler object: long units spread over a long continuum (other average length)
+        n2 = rng.randint(2, 3)
+        big = {"ann": {}, "family": "long-units"}
+        for name in cases.ANNOTATOR_NAMES[:n2]:
+            t = 0.0
+            us = []
+            for _ in range(rng.randint(1, 3)):
+                t += rng.uniform(5, 40)
+                d = rng.uniform(15, 30)
+                us.append([cases.f32(t), cases.f32(t + d), rng.choice(cases.LABELS_SMALL)])
+                t += d
+            big["ann"][name] = us
+        big["ann"][cases.ANNOTATOR_NAMES[0]].append([cases.f32(300.0), cases.f32(330.0), "a"])
+        case["then"] = {"continuum": big, "ground_truth": None}
+    return case
 
 
 def run(ctx):
